@@ -191,14 +191,6 @@ def OpValid : Op L → Prop
   | .setOptions o => 0 < o.candidatesPerPage
   | _ => True
 
-/-- what this package's theorem covers so far: everything except keys, `select(n)` and `jump_*`
-    **while a candidate list is open** -/
-def Covered (e : Editor D L) : Op L → Prop
-  | .key _ => ∀ s, e.state ≠ .selecting s
-  | .select _ => ∀ s, e.state ≠ .selecting s
-  | .jump _ => ∀ s, e.state ≠ .selecting s
-  | _ => True
-
 theorem stInv_unlearn {e : Editor D L} (hi : EditorInv env G e) {d : D}
     (hw : ∀ s, selStrategy e.state = some s → WordsUnder env d e.shared.com.inner s) {sh' : Shared D L}
     (hc : sh'.com = e.shared.com) (hd : sh'.dict = d) : StInv env sh' e.state := by
@@ -219,67 +211,5 @@ theorem stInv_unlearn {e : Editor D L} (hi : EditorInv env G e) {d : D}
   | entering => trivial
   | enteringSyllable => trivial
   | highlighting m => trivial
-
-/-- **one operation**: it returns (no panic, no exhausted fuel) and the invariant holds again -/
-theorem apply_ok (hE : EnvOK env G) {e : Editor D L} (hi : EditorInv env G e) (op : Op L) (hv : OpValid op)
-    (hk : ¬ Known env e op) (hc : Covered e op) : OkAnd (EditorInv env G) (e.apply env op) := by
-  cases op with
-  | key ev =>
-    obtain ⟨⟨e', b⟩, hq, h1⟩ := processKey_ok hE hi hc ev
-    simp only [Editor.apply]; rw [hq]; exact .ok h1
-  | select n =>
-    simp only [Editor.apply, Editor.select]
-    split
-    · next s hs => exact absurd hs (hc s)
-    · exact .ok hi
-  | startSelecting =>
-    obtain ⟨⟨e', b⟩, hq, h1⟩ := startSelecting_api_ok hE hi
-    simp only [Editor.apply]; rw [hq]; exact .ok h1
-  | cancelSelecting => exact .ok (cancelSelecting_api_ok hi)
-  | commit =>
-    obtain ⟨⟨e', b⟩, hq, h1⟩ := commit_api_ok hE hi
-    simp only [Editor.apply]; rw [hq]; exact .ok h1
-  | clear => exact .ok (clear_api_ok hi)
-  | ack => exact .ok ⟨hi.sh.congr rfl rfl rfl rfl rfl, hi.st.same rfl rfl⟩
-  | clearSyl =>
-    exact .ok (leaveIfEmpty_inv ⟨hi.sh.congr rfl rfl rfl rfl rfl, hi.st.same rfl rfl⟩)
-  | setOptions o =>
-    simp only [Known, Classical.not_not] at hk
-    refine .ok (leaveIfEmpty_inv ?_)
-    have hsh : ∀ sh1 : Shared D L, sh1.dict = e.shared.dict → sh1.com = e.shared.com → sh1.engine = e.shared.engine →
-        ShInv env G { sh1 with options := o } := by
-      intro sh1 hd hcm he
-      refine ⟨hd ▸ hi.sh.good, hcm ▸ hi.sh.ced, ?_, ?_, hv⟩
-      · intro c hcc
-        have hcc' : Sym.syl c ∈ e.shared.com.inner.symbols := by
-          have : sh1.com.inner.symbols = e.shared.com.inner.symbols := by rw [hcm]
-          exact this ▸ hcc
-        show env.hasPhrase sh1.dict [c] (engStrategy sh1.engine) = true ∧ env.hasPhrase sh1.dict [c] o.lookupStrategy = true
-        rw [hd, he]
-        exact ⟨(hi.sh.word c hcc').1, hk.1 c hcc'⟩
-      · show o.lookupStrategy = .fuzzyPartialPrefix → engStrategy sh1.engine = .fuzzyPartialPrefix
-        rw [he]; exact hk.2
-    by_cases hlm : (e.shared.options.languageMode != o.languageMode) = true
-    · exact ⟨by rw [if_pos hlm]; exact hsh _ rfl rfl rfl, by rw [if_pos hlm]; exact hi.st.same rfl rfl⟩
-    · exact ⟨by rw [if_neg hlm]; exact hsh _ rfl rfl rfl, by rw [if_neg hlm]; exact hi.st.same rfl rfl⟩
-  | setLayout l =>
-    exact .ok (leaveIfEmpty_inv ⟨hi.sh.congr rfl rfl rfl rfl rfl, hi.st.same rfl rfl⟩)
-  | setEngine k =>
-    simp only [Known, Classical.not_not] at hk
-    refine .ok ⟨⟨hi.sh.good, hi.sh.ced, ?_, hk.2, hi.sh.perPage⟩, hi.st.same rfl rfl⟩
-    intro c hcc
-    exact ⟨hk.1 c hcc, (hi.sh.word c hcc).2⟩
-  | learn k p => exact learn_api_ok hE hi k p
-  | unlearn k p =>
-    simp only [Known, Classical.not_not] at hk
-    refine .ok ⟨⟨hE.remove_good _ _ _ hi.sh.good, hi.sh.ced, ?_, hi.sh.coupled, hi.sh.perPage⟩, ?_⟩
-    · intro c hcc
-      exact ⟨hk.1 c hcc, hk.2.1 c hcc⟩
-    · exact stInv_unlearn hi hk.2.2 rfl rfl
-  | jump w =>
-    simp only [Editor.apply, Editor.jump]
-    split
-    · next s hs => exact absurd hs (hc s)
-    · exact .ok hi
 
 end Chewing.C01
